@@ -544,6 +544,11 @@ def plan(tier, seed):
         for cfg in [dict(base, spec=s, queue=q) for s in ('2.0', '2.3') for q in (0, 2)]:
             for i in range(0, len(full4), 1500):
                 jobs.append((cfg, full4[i:i + 1500], [('t', 1001), ('tb', 1001)], [None]))
+        # every script of <= 4 operations over ALL operations, one client, newest spec, both queue modes
+        all4 = [t for t in scripts_upto(OPS, 4) if len(t) == 4]
+        for cfg in [dict(base, queue=q) for q in (0, 2)]:
+            for i in range(0, len(all4), 2000):
+                jobs.append((cfg, all4[i:i + 2000], [('tb', 1001)], [None]))
         core = scripts_upto(CORE_OPS, 3)
         for cfg in [dict(base, handler=h, error_close_code=e, mw=m, queue=q) for h in ('default', 'custom_close', 'custom_noclose')
                     for e in (1011, 3011, 999) for m in ('none', 'accepts') for q in (0, 2)]:
@@ -570,7 +575,7 @@ def work(job, rep):
 
 def check(rep):
     jobs, specials = plan(rep.tier, rep.seed)
-    rep.bounds = {'responder_ops': OPS, 'script_length<=': 3 if rep.tier == 'quick' else '3 over all ops, 4 over a 12-op core',
+    rep.bounds = {'responder_ops': OPS, 'script_length<=': 3 if rep.tier == 'quick' else '4 over all 17 operations (one client script), 4 over a 12-op core with more clients',
                   'clients': sorted(CLIENTS), 'spec_versions': ['2.0', '2.3'] if rep.tier == 'quick' else ['2.0', '2.1', '2.3', '2.4'],
                   'queue_sizes': [0, 2] if rep.tier == 'quick' else [0, 1, 2], 'send_faults': 'one failing send() at every call index, 4 error kinds',
                   'batches': len(jobs), 'special_sessions': len(specials)}
